@@ -29,7 +29,7 @@ META = dict(
     technique="exhaustive enumeration of include chains (declaration kinds x usage kinds x chain shape x realization "
               "order x mode) with object identity, gcc-computed layouts and value equality as oracle",
     text="Every subset of <= 2 (thorough 3) of 9 declaration kinds is declared in an FFI that is included, directly and "
-         "through a second FFI (4 chain shapes), by FFIs that use each declaration as field / pointer argument / "
+         "through a second FFI (5 chain shapes), by FFIs that use each declaration as field / pointer argument / "
          "typedef target / by name only; in-line, as out-of-line ABI modules and as compiled API modules (batched by "
          "name mangling); every type must be the same ctype object in every FFI of the chain whichever FFI realizes it "
          "first, layouts must be those of the included module, integer constants and enumerators equal, and in API "
@@ -41,7 +41,7 @@ META = dict(
 KINDS = ["tprim", "tstruct", "struct", "union", "enum", "anon", "const", "func", "glob"]
 TYPE_KINDS = KINDS[:6]
 USAGES = ["field", "ptrarg", "tdtarget", "nameonly"]
-TOPOS = ["L2", "L3_use_mid", "L3_use_last", "L3_diamond"]
+TOPOS = ["L2", "L3_use_mid", "L3_use_last", "L3_diamond", "L3_two_bases"]
 ORDERS = ["base_first", "includer_first"]
 
 
@@ -184,7 +184,7 @@ def _scratch_on_path():
 def chain_texts(du, topo, s, api):
     """Per-FFI cdef text and C source for the chain.  du: tuple of (kind, usage)."""
     decls = [(k, u, decl(k, s, api)) for k, u in du]
-    use_pos = {"L2": 2, "L3_use_mid": 2, "L3_use_last": 3, "L3_diamond": 3}[topo]
+    use_pos = {"L2": 2, "L3_use_mid": 2, "L3_use_last": 3, "L3_diamond": 3, "L3_two_bases": 3}[topo]
     n = 2 if topo == "L2" else 3
     cdefs = {i: "" for i in range(1, n + 1)}
     csrc = {i: "" for i in range(1, n + 1)}
@@ -203,8 +203,17 @@ def chain_texts(du, topo, s, api):
         # every FFI also declares something of its own, so that its tables are not empty
         cdefs[i] += "typedef short own_t%s_%d;\n" % (s, i)
         csrc[i] = "typedef short own_t%s_%d;\n" % (s, i) + csrc[i]
-    includes = {2: [1], 3: [2, 1] if topo == "L3_diamond" else [2]}
+    if topo == "L3_two_bases":
+        # ffi2 is an unrelated FFI; ffi3 includes it FIRST and the declaring FFI second
+        includes = {2: [], 3: [2, 1]}
+    else:
+        includes = {2: [1], 3: [2, 1] if topo == "L3_diamond" else [2]}
     return n, cdefs, csrc, includes, use_pos, decls
+
+
+def observers(topo, n):
+    """The FFIs through which the declarations of ffi1 must be visible."""
+    return [3] if topo == "L3_two_bases" else list(range(2, n + 1))
 
 
 def build_inline(du, topo, hist):
@@ -322,12 +331,13 @@ def _err(e):
     return "%s: %s" % (type(e).__name__, str(e).split("\n")[0][:140])
 
 
-def check_case(mode, f, libs, decls, use_pos, order, s=""):
+def check_case(mode, f, libs, decls, use_pos, order, s="", topo="L2"):
     """Returns (nchecks, [(what, kind, text)])."""
     bad = []
     nchecks = 0
     n = len(f)
-    qorder = list(range(1, n + 1)) if order == "base_first" else list(range(n, 0, -1))
+    obs = observers(topo, n)
+    qorder = [1] + obs if order == "base_first" else obs[::-1] + [1]
     api = mode == "api"
     for kind, u, d in decls:
         # ---- identity of every type through every FFI of the chain ------------------------
@@ -341,7 +351,7 @@ def check_case(mode, f, libs, decls, use_pos, order, s=""):
                         got[i] = e
                 if isinstance(got[1], Exception):
                     raise InfraError("the declaring FFI itself cannot build %r: %s" % (probe, _err(got[1])))
-                for i in range(2, n + 1):
+                for i in obs:
                     nchecks += 1
                     if isinstance(got[i], Exception):
                         bad.append(("not_visible", kind, "ffi%d.typeof(%r): %s" % (i, probe, _err(got[i]))))
@@ -417,34 +427,46 @@ def check_case(mode, f, libs, decls, use_pos, order, s=""):
         # ---- API: functions and globals of the included module through every including lib ------------
         if api and kind == "func":
             name = "fn_f" + s
-            a1 = int(f[1].cast("intptr_t", f[1].addressof(libs[1], name)))
-            for i in range(2, n + 1):
-                nchecks += 1
+            addr = {}
+            for i in qorder:             # the realization order decides which lib caches the attribute first
+                if i != 1:
+                    nchecks += 1
                 try:
                     r = getattr(libs[i], name)(5)
-                    ai = int(f[i].cast("intptr_t", f[i].addressof(libs[i], name)))
+                    addr[i] = int(f[i].cast("intptr_t", f[i].addressof(libs[i], name)))
                     if r != 1005:
                         bad.append(("reach", kind, "lib%d.%s(5) returned %r" % (i, name, r)))
-                    if ai != a1:
-                        bad.append(("reach", kind, "addressof(lib%d, %s) differs from lib1's" % (i, name)))
                 except Exception as e:
+                    if i == 1:
+                        raise InfraError("the declaring lib cannot call %s: %s" % (name, _err(e)))
                     bad.append(("reach", kind, "lib%d.%s: %s" % (i, name, _err(e))))
+            for i in addr:
+                if addr[i] != addr.get(1):
+                    bad.append(("reach", kind, "addressof(lib%d, %s) differs from lib1's" % (i, name)))
         if api and kind == "glob":
             name = "gl_g" + s
-            a1 = int(f[1].cast("intptr_t", f[1].addressof(libs[1], name)))
-            for i in range(2, n + 1):
-                nchecks += 1
+            addr = {}
+            for i in qorder:
+                if i != 1:
+                    nchecks += 1
                 try:
                     v = getattr(libs[i], name)
-                    ai = int(f[i].cast("intptr_t", f[i].addressof(libs[i], name)))
+                    addr[i] = int(f[i].cast("intptr_t", f[i].addressof(libs[i], name)))
+                    if v != 77:
+                        bad.append(("reach", kind, "lib%d.%s is %r" % (i, name, v)))
+                except Exception as e:
+                    if i == 1:
+                        raise InfraError("the declaring lib cannot read %s: %s" % (name, _err(e)))
+                    bad.append(("reach", kind, "lib%d.%s: %s" % (i, name, _err(e))))
+            for i in sorted(addr):
+                if addr[i] != addr.get(1):
+                    bad.append(("reach", kind, "addressof(lib%d, %s) differs from lib1's" % (i, name)))
+                elif i != 1:
                     setattr(libs[i], name, 1000 + i)
                     back = getattr(libs[1], name)
                     setattr(libs[1], name, 77)
-                    if v != 77 or back != 1000 + i or ai != a1:
-                        bad.append(("reach", kind, "lib%d.%s: value %r, after store lib1 sees %r, same address %r" % (
-                            i, name, v, back, ai == a1)))
-                except Exception as e:
-                    bad.append(("reach", kind, "lib%d.%s: %s" % (i, name, _err(e))))
+                    if back != 1000 + i or getattr(libs[i], name) != 77:
+                        bad.append(("reach", kind, "a store through lib%d.%s is not the store lib1 sees" % (i, name)))
     return nchecks, bad
 
 
@@ -463,11 +485,13 @@ def run_cheap(case):
             f, libs, decls, use_pos, cleanup = build_abi(du, topo)
     except InfraError:
         raise
-    except Exception:
+    except Exception as e:
+        # every chain of the space is a valid use of include() that the unchanged tree builds; if the including FFI
+        # or module cannot be built, the included declarations are not visible through it
         import traceback
-        raise InfraError("cannot build the chain for %r: %s" % (case, traceback.format_exc()[-1500:]))
+        return 0, [("chain_build_failed", "chain", "%s | %s" % (_err(e), traceback.format_exc()[-700:]))]
     try:
-        return check_case(mode, f, libs, decls, use_pos, order)
+        return check_case(mode, f, libs, decls, use_pos, order, "", topo)
     finally:
         if cleanup:
             cleanup()
@@ -485,11 +509,19 @@ def work_api(item):
     topo, cases = item              # cases: [(cid, du, order)]
     import warnings
     warnings.simplefilter("ignore")
-    f, libs, info = build_api([(cid, du) for cid, du, _ in cases], topo)
+    try:
+        f, libs, info = build_api([(cid, du) for cid, du, _ in cases], topo)
+    except Exception as e:
+        # generator exception, gcc rejecting the generated C, or import failure: the batch of valid chains cannot be built
+        import traceback
+        cid, du, order = cases[0]
+        return [(("api", du, topo, order, "fresh"), 0,
+                 [("chain_build_failed", "batch", "%d cases | %s | %s" % (len(cases), _err(e),
+                                                                           traceback.format_exc()[-700:]))])]
     out = []
     for cid, du, order in cases:
         decls, use_pos = info[cid]
-        n, bad = check_case("api", f, libs, decls, use_pos, order, "_%d" % cid)
+        n, bad = check_case("api", f, libs, decls, use_pos, order, "_%d" % cid, topo)
         out.append((("api", du, topo, order, "fresh"), n, bad))
     return out
 
@@ -591,8 +623,9 @@ def run(ctx):
         "evaluations": evaluated,
         "distinct_nontrivial": len(nontrivial),
         "checks": checks,
-        "rule": "every subset of <= %d of the 9 declaration kinds x every applicable usage assignment (%d assignments) x 4 "
-                "chain shapes (A<-B; A<-B<-C used in B; A<-B<-C used in C; C includes B and A) x 2 realization orders, "
+        "rule": "every subset of <= %d of the 9 declaration kinds x every applicable usage assignment (%d assignments) x 5 "
+                "chain shapes (A<-B; A<-B<-C used in B; A<-B<-C used in C; C includes B and A where B includes A; C "
+                "includes an unrelated B first and then A) x 2 realization orders, "
                 "run in-line with a fresh and with an already-used included FFI%s, and as out-of-line ABI modules; API: %s, "
                 "batched by name mangling into %d chains of compiled modules.  "
                 "non-trivial = more than one kind, or a chain of 3, or a usage other than by-name (distinct cases)" % (
